@@ -34,13 +34,13 @@ func tooBig(N, r, p, keyLen int64) bool {
 	return 128*r*N > 1<<26 || p*128*r > 1<<20 || p*r*N > 1<<18 || keyLen > 1<<16
 }
 
-var nSpecial = []int64{0, 1, 3, 6, -4, 5, 12, 1023, 1025, -2, -1024, 1 << 30, 1 << 31, 1 << 56, 1 << 57, 1 << 62, math.MinInt64, maxInt}
+var nSpecial = []int64{0, 1, 3, 6, -4, 5, 12, 1023, 1025, -2, -1024, 1 << 30, 1 << 31, 1 << 56, 1 << 57, 1 << 62, math.MinInt64, math.MinInt64 + 1, -(1 << 62), -(1 << 62) + 1, maxInt, maxInt - 1, 1<<62 + 1}
 var rpSpecial = []int64{1 << 29, 1 << 30, 1 << 31, 1 << 32, 1 << 33, 1 << 25, 1 << 26, 1 << 62, maxInt/128 - 1, maxInt / 128, maxInt/128 + 1,
 	maxInt / 256, maxInt/256 + 1, maxInt, math.MinInt64, 1<<30 - 1, 64, 128, 1024}
 var keyLenSpecial = []int64{1 << 38, maxInt - 32, maxInt - 31, maxInt, (1<<32-1)*32 + 1, math.MinInt64, 1 << 62}
 
 func gen(g *hx.Gen) {
-	n := g.Count(2000, 40000)
+	n := g.Count(2000, 30000)
 	r := g.R
 	emit := func(pw, salt []byte, N, rr, p, kl int64) {
 		switch {
